@@ -249,6 +249,7 @@ class Member(object):
         self.sync_reply = None  # held SyncGroup reply callback
         self.assignment = b""
         self.joined_this_round = False
+        self.foreign = False  # scripted member of another client library: joins every round, never times out
 
 
 class Group(object):
@@ -718,6 +719,8 @@ class Cluster(object):
         return self.groups[name]
 
     def _touch_session(self, g, m):
+        if m.foreign:
+            return
         if m.session_dc is not None and m.session_dc.active():
             m.session_dc.cancel()
         m.session_dc = self.clock.labelled(m.session_timeout / 1000.0, "srv.session_expired", self._expire, g,
@@ -754,7 +757,7 @@ class Cluster(object):
             if m.sync_reply is not None:
                 r, m.sync_reply = m.sync_reply, None
                 r(ERR_REBALANCE_IN_PROGRESS, b"")
-            m.joined_this_round = False
+            m.joined_this_round = m.foreign
         g.state = "PreparingRebalance"
         if g.rebalance_dc is not None and g.rebalance_dc.active():
             g.rebalance_dc.cancel()
@@ -798,7 +801,7 @@ class Cluster(object):
         self.history.append(dict(t=self.clock.seconds(), api="_group_state", group=g.name, state=g.state,
                                  generation=g.generation, leader=g.leader, members=list(g.members)))
         for m in g.members.values():
-            m.joined_this_round = False
+            m.joined_this_round = m.foreign
             if m.join_reply is not None:
                 r, m.join_reply = m.join_reply, None
                 md = dict(m.protocols).get(g.protocol, b"")
@@ -935,6 +938,26 @@ class Cluster(object):
                     self._remove_member(g, body["member"])
         ev["result"] = dict(error=err)
         reply(R.resp_leave_group(ev["corr"], err))
+
+    def add_foreign_member(self, group_name, member_id, protocols):
+        """A member that is not an afkak client (its subscription metadata is given as bytes)."""
+        g = self.group(group_name)
+        m = Member(member_id, 30000, list(protocols), -1)
+        m.foreign = True
+        m.joined_this_round = True
+        g.members[member_id] = m
+        self.history.append(dict(t=self.clock.seconds(), api="_foreign_member_joined", group=group_name,
+                                 member=member_id))
+        if g.state in ("Stable", "AwaitingSync"):
+            self._prepare_rebalance(g)
+        elif g.state == "Empty":
+            g.state = "PreparingRebalance"
+            self._maybe_complete_join(g)
+
+    def remove_foreign_member(self, group_name, member_id):
+        g = self.groups.get(group_name)
+        if g is not None and member_id in g.members:
+            self._remove_member(g, member_id)
 
     def evict(self, group_name, member_id):
         g = self.groups.get(group_name)
